@@ -3,6 +3,8 @@ import Hive.Proofs.KVCopy
 import Hive.Proofs.KVTrace
 import Hive.Proofs.KVFault
 import Hive.Proofs.KVHeap
+import Hive.Proofs.KVMem
+import Hive.Model.KVDrive
 import Hive.Gen.C04_Calls
 import Hive.Gen.C04_Skel
 /-!
@@ -596,6 +598,210 @@ example : storeView (hrun hinit [.alloc [7], .batch 0 [], .bset 0 [0] 0, .write 
   decide
 
 end PrivateCopies
+
+/-! ## keys, prefixes and realms as buffers: mapdb with memory, second level (`Hive/Model/KVMem.lean`)
+
+Every slice that crosses the API is a reference here.  The model is the one `drv_c04` runs for the `m …` requests of the
+harness (buffers are first-class there; the caller overwrites and reuses them at any time), so its predictions — also the
+places where the code *keeps* the caller's slice — are compared with the real code line by line on every run. -/
+
+section MemoryKeys
+open Heap Mem
+
+/-- The ownership invariant holds in every state reachable by any history of store requests and caller actions. -/
+theorem C04_mem_inv_reachable (ops : List MOp) : MInv (mrun minit ops) :=
+  minv_run _ minv_init ops
+
+/-- **The store never writes into a buffer that exists already** — not into one the caller holds (passed as key, prefix,
+realm or value, or received from a read), not into any other: in every reachable state, after any request other than
+the caller's own `write r`, buffer `r` reads what it read before. -/
+theorem C04_store_never_writes_existing_buffers (ops : List MOp) (op : MOp) (r : Ref)
+    (hr : r < (mrun minit ops).mem.next) (hop : ∀ b, op ≠ .write r b) :
+    (mstep (mrun minit ops) op).1.mem.read r = (mrun minit ops).mem.read r :=
+  mstep_reads _ (C04_mem_inv_reachable ops) op r hr hop
+
+/-- **A buffer the caller does not hold is frozen forever**: whatever requests and caller writes follow, its bytes stay
+and it is never handed to the caller.  (The buffers the map references and the realm buffers made by
+`WithExtendedRealm` are such buffers: `C04_mem_inv_reachable`, `C04_extended_realm_is_a_private_copy`.) -/
+theorem C04_private_buffers_are_frozen (ops more : List MOp) (r : Ref) (hr : r < (mrun minit ops).mem.next)
+    (hk : r ∉ (mrun minit ops).known) :
+    (mrun (mrun minit ops) more).mem.read r = (mrun minit ops).mem.read r ∧ r ∉ (mrun (mrun minit ops) more).known :=
+  let f := frozen_run _ (C04_mem_inv_reachable ops) more r hr hk
+  ⟨f.1, f.2.2⟩
+
+/-- **Mutating any buffer the caller holds does not change stored data** (keys, prefixes, realms, values; passed to the
+store or received from it), in every reachable state. -/
+theorem C04_mem_caller_writes_do_not_reach_the_store (ops : List MOp) (r : Ref) (b : Bytes) :
+    Mem.storeView (mstep (mrun minit ops) (.write r b)).1 = Mem.storeView (mrun minit ops) := by
+  have h := C04_mem_inv_reachable ops
+  generalize mrun minit ops = s at h ⊢
+  simp only [mstep]
+  split
+  · rename_i hk
+    exact deref_congr (fun e he => read_write_ne _ _ _ _ (fun heq => h.owned_priv e he (heq ▸ hk)))
+  · rfl
+
+/-- **The keyed calls use the bytes their buffers hold when they are called**: through a view whose realm buffer reads
+`R` now, `Set(k, x)` stores `R ‖ bytes(k) ↦ bytes(x)` (a new buffer), `Delete` / `DeletePrefix` remove by `R ‖ bytes`,
+`Has` answers whether `R ‖ bytes(k)` is stored — the value model's `aset / adel / adelPfx / aget` on the erasure. -/
+theorem C04_mem_keyed_calls_read_their_buffers_at_call_time (s : MSt) (h : MInv s) (v : Nat) (rv k x : Ref)
+    (hv : s.views.lookup v = some rv) (hk : k ∈ s.known) (hx : x ∈ s.known) :
+    Mem.storeView (mstep s (.set v k x)).1 = aset (s.mem.read rv ++ s.mem.read k) (s.mem.read x) (Mem.storeView s) ∧
+    Mem.storeView (mstep s (.del v k)).1 = adel (s.mem.read rv ++ s.mem.read k) (Mem.storeView s) ∧
+    Mem.storeView (mstep s (.delp v k)).1 = adelPfx (s.mem.read rv ++ s.mem.read k) (Mem.storeView s) ∧
+    (mstep s (.has v k)).2 = .bool (aget (s.mem.read rv ++ s.mem.read k) (Mem.storeView s)).isSome := by
+  refine ⟨?_, ?_, ?_, ?_⟩
+  · simp only [mstep, hv, hk, hx, and_self, if_true, Mem.storeView, fullKey]
+    exact (mapSet_ok s.mem s.m _ x h.owned_lt).2 (h.known_lt x hx)
+  · simp only [mstep, hv, hk, if_true, Mem.storeView, fullKey, deref_rdel]
+  · simp only [mstep, hv, hk, if_true, Mem.storeView, fullKey, deref_rdelPfx]
+  · simp only [mstep, hv, hk, if_true, Mem.storeView, fullKey, aget_deref, Option.isSome_map]
+
+/-- **`Get` returns a private copy**: a buffer that did not exist before (so it is not the map's, not a view's realm,
+not one handed out earlier), holding the bytes stored under `R ‖ bytes(k)`; nothing stored changes. -/
+theorem C04_mem_get_returns_a_private_copy (s : MSt) (h : MInv s) (v : Nat) (rv k : Ref)
+    (hv : s.views.lookup v = some rv) (hk : k ∈ s.known) :
+    match aget (s.mem.read rv ++ s.mem.read k) (Mem.storeView s) with
+    | none => mstep s (.get v k) = (s, .notfound)
+    | some val => (mstep s (.get v k)).2 = .ref s.mem.next ∧ (mstep s (.get v k)).1.mem.read s.mem.next = val ∧
+        s.mem.next ∈ (mstep s (.get v k)).1.known ∧ Mem.storeView (mstep s (.get v k)).1 = Mem.storeView s := by
+  simp only [Mem.storeView, aget_deref, fullKey, mstep, hv, hk, if_true]
+  cases hg : rget (s.mem.read rv ++ s.mem.read k) s.m with
+  | none => simp
+  | some r =>
+    simp only [Option.map_some, alloc_ref]
+    refine ⟨trivial, ?_, by simp, ?_⟩
+    · rw [← alloc_ref s.mem (s.mem.read r), read_alloc_new]
+    · exact deref_congr (fun e he => read_alloc_lt _ _ _ (h.owned_lt e he))
+
+/-- **WithExtendedRealm makes a private copy of the realm**: the new view's realm buffer did not exist before, holds
+`parent realm ‖ bytes(r)` as they read at the call, is not held by the caller, and keeps these bytes whatever happens
+afterwards (in particular when the caller overwrites `r`). -/
+theorem C04_extended_realm_is_a_private_copy (s : MSt) (h : MInv s) (v p : Nat) (rp r : Ref)
+    (hp : s.views.lookup p = some rp) (hr : r ∈ s.known) (more : List MOp) :
+    let s' := (mstep s (.withExtendedRealm v p r)).1
+    s'.views.lookup v = some s.mem.next ∧ s.mem.next ∉ s'.known ∧
+    (mrun s' more).mem.read s.mem.next = s.mem.read rp ++ s.mem.read r ∧ s.mem.next ∉ (mrun s' more).known := by
+  have hi := minv_step s h (.withExtendedRealm v p r)
+  have hnk : s.mem.next ∉ s.known := fun hk => Nat.lt_irrefl _ (h.known_lt _ hk)
+  simp only [mstep, hp, hr, if_true] at hi ⊢
+  have hf := frozen_run _ hi more s.mem.next (by simp) hnk
+  refine ⟨by simp [List.lookup_cons], hnk, ?_, hf.2.2⟩
+  rw [hf.1]
+  exact read_alloc_new s.mem _
+
+/-- **WithRealm keeps the caller's slice** (the code as it is: `&mapDB{…, realm: realm}`): the view's realm IS the buffer
+the caller passed, which the caller still holds.  The statement's buffer clause speaks of Set and Commit; see the
+witness below and `design/C04.md`. -/
+theorem C04_withRealm_keeps_the_callers_slice (s : MSt) (v p : Nat) (rp r : Ref)
+    (hp : s.views.lookup p = some rp) (hr : r ∈ s.known) :
+    (mstep s (.withRealm v p r)).1.views.lookup v = some r ∧ r ∈ (mstep s (.withRealm v p r)).1.known := by
+  simp [mstep, hp, hr, List.lookup_cons]
+
+/-- **A batch keeps private copies of its keys.**  `Set(k, x)` / `Delete(k)` on a batch record the bytes buffer `k` holds
+when they are called; whatever the caller then does to its buffers (overwrite `k`, reuse it for the next call, make
+new ones) changes no pending operation of any batch: keys, the set/delete bookkeeping and the realm reference stay. -/
+theorem C04_batch_keeps_private_key_copies (s : MSt) (b : Nat) (bt : MBatch) (hb : s.batches.lookup b = some bt)
+    (k x : Ref) (hk : k ∈ s.known) (hx : x ∈ s.known) (ws : List MOp) (hc : ∀ op ∈ ws, op.isCaller = true) :
+    (mrun (mstep s (.bset b k x)).1 ws).batches.lookup b =
+      some { bt with sets := rset (s.mem.read k) x bt.sets, dels := bt.dels.filter (· != s.mem.read k) } ∧
+    (mrun (mstep s (.bdel b k)).1 ws).batches.lookup b =
+      some { bt with sets := rdel (s.mem.read k) bt.sets, dels := s.mem.read k :: bt.dels.filter (· != s.mem.read k) } ∧
+    (mrun s ws).batches = s.batches := by
+  refine ⟨?_, ?_, (caller_run s ws hc).2.2⟩
+  · rw [(caller_run _ ws hc).2.2]
+    simp [mstep, hb, hk, hx, List.lookup_cons]
+  · rw [(caller_run _ ws hc).2.2]
+    simp [mstep, hb, hk, List.lookup_cons]
+
+/-- **`Commit` writes the recorded keys under the realm as it reads at commit time, with copies of the values made at
+commit time**: the stored data afterwards is the value model's `dbCommit` on the erasure of the batch. -/
+theorem C04_mem_commit_stores_copies (s : MSt) (h : MInv s) (b : Nat) (bt : MBatch) (hl : s.batches.lookup b = some bt) :
+    (mstep s (.commit b)).2 = .ok ∧
+    Mem.storeView (mstep s (.commit b)).1 =
+      (dbCommit (s.mem.read bt.realm) (deref s.mem bt.sets) bt.dels { m := Mem.storeView s, closed := false }).1.m := by
+  have hs : ∀ e ∈ bt.sets, e.2 < s.mem.next :=
+    fun e he => h.known_lt _ (h.batch_known (b, bt) (lookup_mem' hl) e he)
+  obtain ⟨_, hd⟩ := commitSets_ok (s.mem.read bt.realm) bt.sets s.mem s.m h.owned_lt hs
+  simp only [mstep, hl, Mem.storeView, dbCommit, Bool.false_eq_true, if_false]
+  refine ⟨trivial, ?_⟩
+  rw [deref_foldr_rdel, hd, foldr_deref_sets]
+
+/-- **IterateKeys hands out copies of the keys**: every key slice the consumer receives is a buffer that did not exist
+before the call (hence not the map's, not a realm, not a slice handed out earlier), no two calls get the same buffer, the
+caller holds them afterwards, they spell exactly the keys of the value model's `iterKeysAll` (realm stripped, in the
+requested order), and neither the map nor the stored data changes.  So a consumer may retain or overwrite them. -/
+theorem C04_iterate_keys_hands_out_copies (s : MSt) (v : Nat) (rv p : Ref) (d : Dir)
+    (hv : s.views.lookup v = some rv) (hp : p ∈ s.known) :
+    ∃ l, (mstep s (.iterk v p d)).2 = .keys l ∧ l.Pairwise (· ≠ ·) ∧
+      (∀ r ∈ l, s.mem.next ≤ r ∧ r ∈ (mstep s (.iterk v p d)).1.known) ∧
+      l.map (mstep s (.iterk v p d)).1.mem.read = iterKeysAll (s.mem.read rv) (s.mem.read p) d (Mem.storeView s) ∧
+      (mstep s (.iterk v p d)).1.m = s.m ∧
+      (∀ r, r < s.mem.next → (mstep s (.iterk v p d)).1.mem.read r = s.mem.read r) := by
+  obtain ⟨_, a2, a3, a4, a5⟩ := allocKeys_ok (s.mem.read rv).length
+    (sortBy (dirLt d) ((s.m.filter (fun e => hasPfx (fullKey s rv p) e.1)).map (·.1))) s.mem
+  rw [mstep_iterk s v rv p d hv hp]
+  refine ⟨_, rfl, a4, fun r hr => ⟨(a3 r hr).1, List.mem_append_left _ hr⟩, ?_, rfl, a2⟩
+  show List.map (iterkRes s rv p d).1.read (iterkRes s rv p d).2 = _
+  simp only [iterkRes]
+  rw [a5]
+  simp only [iterKeysAll, snapshot, Mem.storeView, fullKey]
+  rw [← deref_filter s.mem s.m (fun k => hasPfx (s.mem.read rv ++ s.mem.read p) k), keys_deref]
+
+/-- **Iterate hands out copies of keys and values**: all slices the consumer receives (two per call) are buffers that did
+not exist before the call, the key buffers are pairwise distinct, the caller holds all of them afterwards, the keys spell
+the value model's iteration, and nothing that existed before — the map's buffers in particular — changes. -/
+theorem C04_iterate_hands_out_key_and_value_copies (s : MSt) (h : MInv s) (v : Nat) (rv p : Ref) (d : Dir)
+    (hv : s.views.lookup v = some rv) (hp : p ∈ s.known) :
+    ∃ l, (mstep s (.iter v p d)).2 = .kvs l ∧ (l.map (·.1)).Pairwise (· ≠ ·) ∧
+      (∀ e ∈ l, s.mem.next ≤ e.1 ∧ e.1 ∈ (mstep s (.iter v p d)).1.known) ∧
+      (l.map (·.1)).map (mstep s (.iter v p d)).1.mem.read = iterKeysAll (s.mem.read rv) (s.mem.read p) d (Mem.storeView s) ∧
+      (mstep s (.iter v p d)).1.m = s.m ∧
+      (∀ r, r < s.mem.next → (mstep s (.iter v p d)).1.mem.read r = s.mem.read r) := by
+  have hreads := fun r hr => mstep_reads s h (.iter v p d) r hr (fun b hb => by cases hb)
+  obtain ⟨c1, _, _, c4⟩ := copyAll_ok (s.m.filter (fun e => hasPfx (fullKey s rv p) e.1)) s.mem (filter_lt h _)
+  obtain ⟨_, _, a3, a4, a5⟩ := allocKeys_ok (s.mem.read rv).length (iterKeys s rv p d) (iterSnap s rv p).1
+  have hlen : (iterRes s rv p d).2.length = (iterKeys s rv p d).length := by
+    have := congrArg List.length a5
+    simpa [iterRes] using this
+  rw [mstep_iter s v rv p d hv hp] at hreads ⊢
+  refine ⟨_, rfl, ?_, ?_, ?_, rfl, hreads⟩
+  · rw [List.map_fst_zip (by rw [hlen, List.length_map]; exact Nat.le_refl _)]; exact a4
+  · intro e he
+    have he1 := (List.of_mem_zip he).1
+    exact ⟨Nat.le_trans c1 (a3 e.1 he1).1, List.mem_append_left _ he1⟩
+  · rw [List.map_fst_zip (by rw [hlen, List.length_map]; exact Nat.le_refl _)]
+    show List.map (iterRes s rv p d).1.read (iterRes s rv p d).2 = _
+    simp only [iterRes]
+    rw [a5]
+    have hk : (iterSnap s rv p).2.map (·.1) = (s.m.filter (fun e => hasPfx (fullKey s rv p) e.1)).map (·.1) := by
+      rw [← keys_deref (iterSnap s rv p).1]
+      simp only [iterSnap]
+      rw [c4, keys_deref]
+    simp only [iterKeys]
+    rw [hk]
+    simp only [iterKeysAll, snapshot, Mem.storeView, fullKey]
+    rw [← deref_filter s.mem s.m (fun k => hasPfx (s.mem.read rv ++ s.mem.read p) k), keys_deref]
+
+/-- The hypotheses are satisfiable, and the model has the aliasing the code has.  One key buffer reused for three batch
+calls (the usual loop) gives three operations on three keys; `WithRealm` keeps the caller's realm slice — overwriting it
+moves the view (buffer 0 is the realm of view 1; after `write 0 [2]` the same `Set` lands under realm 2) — while the view
+made by `WithExtendedRealm` (view 2) stays where it was; a batch value overwritten between `Set` and `Commit` is committed
+as it reads at `Commit`. -/
+example : Mem.storeView (mrun minit [.alloc [107, 48], .alloc [1], .batch 1 0, .bset 1 1 2, .write 1 [107, 49], .bset 1 1 2,
+    .write 1 [107, 50], .bdel 1 1, .write 1 [255, 255], .write 2 [9], .commit 1, .write 2 [3]]) =
+    [([107, 49], [9]), ([107, 48], [9])] := by
+  decide
+
+example : Mem.storeView (mrun minit [.alloc [1], .alloc [170], .alloc [7], .withRealm 1 0 1, .withExtendedRealm 2 1 1,
+    .set 1 2 3, .write 1 [2], .set 1 2 3, .set 2 2 3]) =
+    [([1, 1, 170], [7]), ([2, 170], [7]), ([1, 170], [7])] := by
+  decide
+
+example : MInv (mrun minit [.alloc [1], .alloc [170], .withRealm 1 0 1, .set 1 2 2, .iterk 0 1 .fwd]) :=
+  C04_mem_inv_reachable _
+
+end MemoryKeys
 
 /-! ## regenerated facts about the source (`Hive/Gen/C04_Calls.lean`, `Hive/Gen/C04_Skel.lean`)
 
